@@ -299,6 +299,50 @@ def history(cfg, case, out):
         cross = [("wrong-key:other-session", d) for d in atk.genuine("s2c", b.addr, n=6, pick="any")]
         atk.present(cross, "client", a, per_tick=2)
 
+        # ---------- phase: forged datagrams that carry the victim's OWN address arrive between its hello and its challenge response
+        #            (valid headers of every type, garbage bodies; a hello replayed): the half-open connection stays what it is and
+        #            the genuine challenge response is honoured
+        w.phase = "half-open-forged-from-victim-address"
+        w.net.heal(0.002)
+        hv2 = w.add_client()
+        held2 = []
+        hold2 = lambda direction, addr, d, info: (held2.append(d) or "drop") if (direction == "c2s" and addr == hv2.addr and len(d) >= 20 and d[12] == 3) else None
+        w.net.filters.append(hold2)
+        hv2.connect()
+        w.step(4)
+        tc2 = w.ctxt.temp_connections.get(hv2.addr)
+        if tc2 is not None and held2:
+            now_ = int(w.clock.now)
+            forged2 = [("forged:type=%d,garbage" % pt, A.header("c2s", now_, 2 + k, 1, pt, 24, 1, 0) + r.randbytes(24 + 16)) for k, pt in enumerate((3, 3, 4, 5, 6, 7, 0))]
+            forged2 += [("forged:type=3,crc", A.forge_crc("c2s", 3, 12, 1, 0, [(2, 3, bytes(8))], now_)),
+                        ("forged:type=3,attacker-key", A.seal(atk.attacker_key, "c2s", 3, 13, 1, 0, [(2, 3, bytes(8))], now_))]
+            hello2 = atk.genuine("c2s", hv2.addr, n=1, pick="any", types=(1,))
+            if hello2:
+                forged2.append(("replay:own-hello", hello2[0]))
+            for label, d in forged2:
+                w.offer_server(hv2.addr, d, label)
+                atk.injected.inc("server|" + label.split("@")[0].split(":")[0])
+                if r.random() < 0.5:
+                    w.step()
+            w.step(2)
+            run.c.inc("c01_half_open_forged_from_victim_address")
+            still2 = w.ctxt.temp_connections.get(hv2.addr)
+            if still2 is not tc2 or getattr(tc2.status, "value", 0) == 4:
+                run.report("C01", "half-open-connection-removed-by-unauthenticated-datagrams", "after forged datagrams from the victim's own address its half-open connection is %s (status %s)" % (
+                    "gone" if still2 is None else "another object" if still2 is not tc2 else "still there", tc2.status), {"origin": "forged", "role": "server", "phase": w.phase})
+            w.net.filters.remove(hold2)
+            w.net.inject("c2s", hv2.addr, held2[0], "honest")
+            w.step(4)
+            if hv2.addr not in w.ctxt.connections:
+                run.report("C01", "half-open-connection-removed-by-unauthenticated-datagrams", "the victim's genuine challenge response was not honoured after forged datagrams from its address (server has %s)" % (
+                    "a half-open entry" if hv2.addr in w.ctxt.temp_connections else "nothing",), {"origin": "forged", "role": "server", "phase": w.phase})
+            else:
+                run.c.inc("c01_handshake_completed_despite_forgeries_from_own_address")
+        elif hold2 in w.net.filters:
+            w.net.filters.remove(hold2)
+        hv2.udp.disconnect()
+        w.step(5)
+        w.remove_client(hv2)
         # ---------- phase: a victim in the middle of its handshake (the server holds a half-open connection WITH a session key for it)
         #            while well-formed hellos arrive from more than a thousand other addresses: nothing those addresses send may
         #            take the victim's connection away before its own timeout
@@ -495,7 +539,7 @@ def finish(tier, seed, results):
                          "inj:server|truncation", "inj:server|header-rewrite-crc", "inj:server|wrong-key", "inj:client|wrong-key",
                          "inj:server|reflection", "inj:server|random", "c01_continuity_checks", "c01_sessions_survived_silent_phase", "c01_forged_queued_ahead_of_genuine",
                          "c01_genuine_processed_despite_forgery_ahead", "c01_kicked_in_handle_message", "c01_forged_at_kicked_connection", "c01_rewrapped_hello_to_closed_client",
-                         "client_datagrams_from_foreign_address", "c01_handshake_completed_despite_flood"], inconclusive)
+                         "client_datagrams_from_foreign_address", "c01_handshake_completed_despite_flood", "c01_handshake_completed_despite_forgeries_from_own_address"], inconclusive)
     cov = {
         "evaluations": m["evaluations"],
         "distinct_nontrivial": m["distinct_nontrivial"],
